@@ -37,6 +37,9 @@ type Call struct {
 	// DupOf >= 0: this call deliberately re-uses the token of an earlier call while that one is
 	// still outstanding (it is issued right after it, before the peer answers anything)
 	DupOf int `json:"dupOf"`
+	// Big >= 2: the peer's answer is a body of Big 16-byte blocks that the client has to fetch
+	// block by block (Block2) with the same token (only when block-wise transfer is on)
+	Big int `json:"big,omitempty"`
 }
 
 type Stray struct {
@@ -71,6 +74,30 @@ type doer interface {
 }
 
 func expected(i int, tok []byte) []byte { return []byte(fmt.Sprintf("R%d:%x", i, tok)) }
+
+// expectedBody is what the peer produces for call i: f(index, token), for a Big call padded to
+// Big-1 full 16-byte blocks plus 7 bytes.
+func expectedBody(i int, c Call) []byte {
+	b := expected(i, c.Token)
+	if c.Big >= 2 {
+		for k := len(b); k < 16*(c.Big-1)+7; k++ {
+			b = append(b, byte('a'+(i+k)%26))
+		}
+	}
+	return b
+}
+
+func block2(num int, more bool) refcodec.Opt {
+	v := num << 4
+	if more {
+		v |= 8
+	}
+	var val []byte
+	for ; v > 0; v >>= 8 {
+		val = append([]byte{byte(v)}, val...)
+	}
+	return refcodec.Opt{Num: 23, Val: val}
+}
 
 func Exec(t *testing.T, sc Scenario, r *evid.Run) *evid.Failure {
 	n := len(sc.Calls)
@@ -109,6 +136,10 @@ func Exec(t *testing.T, sc Scenario, r *evid.Run) *evid.Failure {
 			}
 			cc = c
 			w = wire.TCP(link)
+			if sc.Blockwise {
+				// the stream client uses block-wise transfer only with a peer whose CSM announces it
+				w.ToLib(refcodec.Msg{Code: 225, Opts: []refcodec.Opt{{Num: 4}}})
+			}
 		}
 		bubble.Wait()
 		_ = w.FromLib()
@@ -154,10 +185,40 @@ func Exec(t *testing.T, sc Scenario, r *evid.Run) *evid.Failure {
 		// ---- the peer: collect requests, answer in the generated order
 		reqOf := map[int]refcodec.Msg{} // by call index
 		nextMID := 52000
-		collect := func() {
+		collect := func() (served bool) {
 			for _, m := range w.FromLib() {
 				if m.Code != 1 {
 					continue
+				}
+				if v, ok := peer.FindOpt(m, 23); ok {
+					bv := 0
+					for _, x := range v {
+						bv = bv<<8 | int(x)
+					}
+					if num := bv >> 4; num > 0 {
+						// a follow-up request for block num of a Big answer: served at once
+						for i, c := range sc.Calls {
+							if c.DupOf < 0 && c.Big >= 2 && bytes.Equal(c.Token, m.Token) {
+								body := expectedBody(i, c)
+								lo, hi := 16*num, min(16*num+16, len(body))
+								if lo >= len(body) {
+									break
+								}
+								resp := refcodec.Msg{Code: 69, Token: m.Token, Opts: []refcodec.Opt{block2(num, hi < len(body))}, Payload: body[lo:hi]}
+								if w.Datagram() {
+									if m.Type == peer.CON {
+										resp.Type, resp.MID = peer.ACK, m.MID
+									} else {
+										nextMID++
+										resp.Type, resp.MID = peer.NON, nextMID&0xffff
+									}
+								}
+								w.ToLib(resp)
+								served = true
+							}
+						}
+						continue
+					}
 				}
 				for i, c := range sc.Calls {
 					if c.DupOf < 0 && bytes.Equal(c.Token, m.Token) {
@@ -169,6 +230,7 @@ func Exec(t *testing.T, sc Scenario, r *evid.Run) *evid.Failure {
 					}
 				}
 			}
+			return served
 		}
 		sendStray := func(s Stray) {
 			nextMID++
@@ -184,8 +246,11 @@ func Exec(t *testing.T, sc Scenario, r *evid.Run) *evid.Failure {
 		answer := func(i int) {
 			c := sc.Calls[i]
 			req := reqOf[i]
-			body := expected(i, c.Token)
+			body := expectedBody(i, c)
 			resp := refcodec.Msg{Code: 69, Token: req.Token, Payload: body}
+			if c.Big >= 2 {
+				resp.Opts, resp.Payload = []refcodec.Opt{block2(0, true)}, body[:16]
+			}
 			delay := time.Duration(c.DelayMs) * time.Millisecond
 			if !w.Datagram() {
 				if delay > 0 {
@@ -285,6 +350,16 @@ func Exec(t *testing.T, sc Scenario, r *evid.Run) *evid.Failure {
 			sendStray(sc.Strays[strayIdx])
 		}
 		bubble.Wait()
+		// keep serving the follow-up block requests of Big answers until the client stops asking
+		for k, idle := 0, 0; k < 400 && idle < 4; k++ {
+			time.Sleep(3 * time.Millisecond)
+			bubble.Wait()
+			if collect() {
+				idle = 0
+			} else {
+				idle++
+			}
+		}
 		fin := make(chan struct{})
 		go func() { wg.Wait(); close(fin) }()
 		select {
@@ -318,8 +393,8 @@ func Exec(t *testing.T, sc Scenario, r *evid.Run) *evid.Failure {
 			if !bytes.Equal(o.token, c.Token) {
 				return evid.Failf("match/foreign-token", sc, "call %d (token %x) returned a response carrying token %x", i, c.Token, o.token)
 			}
-			if !bytes.Equal(o.payload, expected(i, c.Token)) {
-				return evid.Failf("match/foreign-response", sc, "call %d (token %x) returned %q, the peer produced %q for it", i, c.Token, o.payload, expected(i, c.Token))
+			if !bytes.Equal(o.payload, expectedBody(i, c)) {
+				return evid.Failf("match/foreign-response", sc, "call %d (token %x) returned %q, the peer produced %q for it", i, c.Token, o.payload, expectedBody(i, c))
 			}
 		} else if answered[i] {
 			// the peer answered this request and nothing was lost: the call must have succeeded
@@ -390,6 +465,13 @@ func gen(t *rapid.T) Scenario {
 		c := Call{Token: tok, DupOf: -1, Non: sc.Transport == "udp" && rapid.IntRange(0, 4).Draw(t, "non") == 0,
 			Style:   rapid.SampledFrom([]string{"piggy", "piggy", "sep", "sep-first", "dup", "dup-fresh"}).Draw(t, "style"),
 			DelayMs: rapid.SampledFrom([]int{0, 0, 1, 20, 500}).Draw(t, "delay"), SepCon: rapid.Bool().Draw(t, "sepcon")}
+		if sc.Blockwise && rapid.IntRange(0, 3).Draw(t, "big") == 0 {
+			// duplicated blocks of a block-wise body are C04's subject
+			c.Big = rapid.IntRange(2, 6).Draw(t, "nblocks")
+			if c.Style == "dup" || c.Style == "dup-fresh" {
+				c.Style = "sep"
+			}
+		}
 		sc.Calls = append(sc.Calls, c)
 		if !sc.Serialised && len(sc.Calls) < 8 && rapid.IntRange(0, 5).Draw(t, "dup") == 0 {
 			sc.Calls = append(sc.Calls, Call{Token: tok, DupOf: len(sc.Calls) - 1, Style: "piggy", Non: c.Non})
@@ -466,15 +548,25 @@ func TestCheck(t *testing.T) {
 				key = string(b)
 			}
 			cls := []string{"match/" + sc.Transport}
-			if sc.Serialised {
-				cls = append(cls, "match/serialised")
+			big, bigDup := false, false
+			for i, c := range sc.Calls {
+				if c.Big >= 2 {
+					big = true
+					bigDup = bigDup || hasDup(sc, i)
+				}
+			}
+			if big {
+				cls = append(cls, "match/block-wise-answer")
+			}
+			if bigDup {
+				cls = append(cls, "match/block-wise-answer-with-colliding-request")
 			}
 			r.Case("match", key, func() any { return sc }, cls...)
 		}
 		return f
 	})
 	r.Main(evid.Meta{
-		Rule:        "a client connection (datagram and stream, block-wise on/off) in a synctest bubble; 1-8 callers issue GETs concurrently with caller-chosen tokens of 1-8 bytes from families built to collide as far as tokens can (same bytes at different lengths, shared prefixes, zero padding), NSTART and the parallel-request limits either high (true concurrency) or at the library defaults (serialised); the scripted peer answers the collected requests in a generated permutation, each in a generated style (piggy-backed, empty ACK then separate CON/NON response, response before its ACK, delayed, duplicated with the same or a fresh message ID), and injects stray responses whose tokens are unknown, proper prefixes or extensions of outstanding ones; optionally a second request re-uses a token that is still outstanding. Oracle: every successful call returns its own token and the payload the peer produced for that request (payload = f(request index, token)); a call the peer answered succeeds; of two simultaneous calls with one token exactly one gets the response and the other is refused; every call returns by its deadline. real: 2-6 concurrent callers with own tokens over UDP, DTLS-PSK, TCP and TLS loopback sockets against the library's own server, whose handler holds every request and answers in a generated order, some with bodies that need block-wise transfer. Non-trivial = >= 2 requests outstanding at once and (answer order != request order, or a non-piggy-backed/duplicated style, or a duplicate token); distinct by scenario",
+		Rule:        "a client connection (datagram and stream, block-wise on/off) in a synctest bubble; 1-8 callers issue GETs concurrently with caller-chosen tokens of 1-8 bytes from families built to collide as far as tokens can (same bytes at different lengths, shared prefixes, zero padding), NSTART and the parallel-request limits either high (true concurrency) or at the library defaults (serialised); the scripted peer answers the collected requests in a generated permutation, each in a generated style (piggy-backed, empty ACK then separate CON/NON response, response before its ACK, delayed, duplicated with the same or a fresh message ID), and injects stray responses whose tokens are unknown, proper prefixes or extensions of outstanding ones; optionally a second request re-uses a token that is still outstanding; with block-wise on, a quarter of the answers are bodies of 2-6 blocks the client has to fetch block by block with the same token (on streams the peer's CSM announces block-wise transfer). Oracle: every successful call returns its own token and the payload the peer produced for that request (payload = f(request index, token)); a call the peer answered succeeds; of two simultaneous calls with one token exactly one gets the response and the other is refused; every call returns by its deadline. real: 2-6 concurrent callers with own tokens over UDP, DTLS-PSK, TCP and TLS loopback sockets against the library's own server, whose handler holds every request and answers in a generated order, some with bodies that need block-wise transfer. Non-trivial = >= 2 requests outstanding at once and (answer order != request order, or a non-piggy-backed/duplicated style, or a duplicate token); distinct by scenario",
 		Assumptions: []string{"token re-use after completion and responses for timed-out requests are outside the statement and not generated", "CRC-64 collisions between different tokens (the tables are keyed by Token.Hash()) are not constructed", "the real engine runs the same oracle over UDP, DTLS-PSK, TCP and TLS loopback sockets against the library's own servers (real time; a failure counts only if it reproduces three times in a row)"},
 		Floor:       300,
 	}, eng, realEngine())
